@@ -775,14 +775,38 @@ func (ig Integration) Filter() glf.Filter {
 		fields []string
 		addrs  []string
 	)
+	// The address list is sent with eth_getLogs, so it may only be used
+	// when no declared filter could accept a log from another address.
+	var nfilters int
+	for _, def := range ig.coldefs {
+		for _, f := range []Filter{def.Input.Filter, def.BlockData.Filter} {
+			if len(f.Arg) > 0 || len(f.Ref.Integration) > 0 {
+				nfilters++
+			}
+		}
+	}
 	for i := range ig.Block {
 		fields = append(fields, ig.Block[i].Name)
 
-		if ig.Block[i].Name == "log_addr" && len(ig.Block[i].Filter.Arg) > 0 {
-			for _, arg := range ig.Block[i].Filter.Arg {
-				addrs = append(addrs, eth.EncodeHex(eth.DecodeHex(arg)))
-			}
+		f := ig.Block[i].Filter
+		switch {
+		case ig.Block[i].Name != "log_addr" || len(f.Arg) == 0:
+			continue
+		case f.Op != "contains" && f.Op != "eq":
+			continue
+		case nfilters > 1 && ig.filterAGG != "and":
+			continue
 		}
+		var exact []string
+		for _, arg := range f.Arg {
+			b := eth.DecodeHex(arg)
+			if len(b) != 20 {
+				exact = nil
+				break
+			}
+			exact = append(exact, eth.EncodeHex(b))
+		}
+		addrs = append(addrs, exact...)
 	}
 	return *glf.New(fields, addrs, [][]string{{eth.EncodeHex(ig.sighash)}})
 }
